@@ -154,3 +154,10 @@ _old_obligations = obligations
 
 def obligations(ctx, cfg):
     return _old_obligations(ctx, cfg) + [C04c()]
+
+
+def kani_harnesses(cfg):
+    if cfg['tier'] == 'quick':
+        return []
+    return [{'id': 'K7-ack-deadline-real-std', 'harness': 'k7_ack_deadline_window', 'timeout_s': 1800,
+             'desc': 'AckDeadline::new on the real std/tokio Instant and Duration (arbitrary clock, 4 s window after EPOCH): never >= 1 us early, < 100 ms late - cross-check of the integer-mode time contracts'}]
